@@ -26,7 +26,7 @@ RULE = (
 )
 ASSUMPTIONS = c01.ASSUMPTIONS + ["binary layouts are contiguous after the identifier (the property's domain)", "identifiers are ASCII literal text without surrounding blanks"]
 TRUSTED = []
-NOT_THEOREMS = ['Spec.C10.holds (recognition, one line, exact width, canonical read-back, tell() partial sums): evaluated per case in the three storages']
+NOT_THEOREMS = ['positional text storage is a theorem for every stream (Props.C10.text_positional, under the read half of the per-field law: proved for integers, literals, floats, missing values; dates and newline-freeness of float/date renderings per case)', 'delimited text and binary storage: Spec.C10.holds evaluated per case (recordSize_eq is the only binary theorem)']
 EXHAUSTIVE = {"quick": False, "thorough": False}
 
 
